@@ -536,6 +536,9 @@ def run(ctx):
                100} for i in range(common.NCPU)]
     results = common.run_shards('checks.c17', shards, timeout=3400)
     common.merge_shards(ctx, results)
+    if ctx.counters.get('judged_with_a_comment_inside_the_term', 0) == 0:
+        ctx.inconclusive_because('no instance with a comment inside the term '
+                                 'was judged')
     # real-run part: function inlining in a real run answers from symbol
     # tables that must be those of the current input
     from checks import c17_real
